@@ -14,7 +14,7 @@ vf.use_repo()
 from ak import color as akcolor  # noqa: E402
 from ak.color import ColorsConfig, CHText  # noqa: E402
 from ak.ppobj import PPTable, PrettyPrinter, PPRecordFmt, PPWrap  # noqa: E402
-from ak.hdoc import HCommand  # noqa: E402
+from ak.hdoc import HCommand, h_doc, BoundMethodNotes  # noqa: E402
 from ak.mcaller_http import MCallerHttp, method_http  # noqa: E402
 from ak.ghist import ReposCollection, GHistReport  # noqa: E402
 from vf import tables as T  # noqa: E402
@@ -40,6 +40,30 @@ class Caller(MCallerHttp):
     @method_http
     def m2(self):
         """method two"""
+
+
+@h_doc
+class Gadget:
+    """A gadget of the application
+    it documents itself with the package's help
+    """
+    # (ready-made notes, kept by the class: the same objects are handed out for several methods, again and again)
+    _NOTES_OK = BoundMethodNotes(True, "", "")
+    _NOTES_NA = BoundMethodNotes(False, "n/a", "! needs a licence !")
+
+    def start(self):
+        """start it
+        #run
+        """
+
+    def stop(self, hard=False):
+        """stop it"""
+
+    def park(self):
+        """park it for the night"""
+
+    def _get_hdoc_method_notes(self, bound_method, _c):
+        return self._NOTES_OK if bound_method.__name__ == 'start' else self._NOTES_NA
 
 
 def build_object(spec, shared):
@@ -75,6 +99,8 @@ def build_object(spec, shared):
         repo = mg.rebuild(spec['repo'])
         return ReposCollection({'r': mg.TRepo('r', repo, 'origin')}).make_report(spec['text'])
     if kind == 'hdoc':
+        if spec.get('target') in ('gadget', 'gadget-method'):
+            return Gadget() if spec['target'] == 'gadget' else Gadget().stop
         if spec.get('target') == 'method':
             return Caller("http://h").m1      # a method that is not available in this object (auth type)
         return Caller("http://h") if spec['bound'] else Caller
